@@ -5,6 +5,8 @@ package basic
 
 import (
 	"encoding/binary"
+	"log"
+	"sync"
 
 	"fixture/dep"
 )
@@ -531,4 +533,69 @@ func WalkPrefix(b []byte, k int) *node {
 		n = &node{next: n}
 	}
 	return n
+}
+
+// ---- fields written, locks and log output skipped, external calls as inputs
+
+type Counter struct {
+	mu    sync.Mutex
+	seq   int64
+	last  int64
+	wraps uint8
+	hist  []uint16
+}
+
+var now int64
+
+func clockNow() int64 { return now }
+
+func (c *Counter) SetSeq(v int64) { c.seq = v }
+
+func (c *Counter) Bump(by int64) int64 {
+	c.mu.Lock()
+	defer c.mu.Unlock()
+	if by < 0 {
+		log.Printf("negative step %d", by)
+		return c.seq
+	}
+	c.seq += by
+	if c.seq > 1000 {
+		c.seq = 0
+		c.wraps++
+	}
+	c.last = c.seq
+	return c.seq
+}
+
+func (c *Counter) Drain() (n int) {
+	for c.seq > 0 {
+		c.seq -= 7
+		n++
+		if n > 50 {
+			c.wraps = 0
+			break
+		}
+	}
+	return n
+}
+
+func (c *Counter) SumHist() (total uint16, ok bool) {
+	for _, h := range c.hist {
+		total += h
+		c.last = int64(h)
+	}
+	return total, c.last > 0
+}
+
+// uses the clock: translated with clockNow declared "clockNow#extern"
+func (c *Counter) Stamp(limit int64) (int64, bool) {
+	t := clockNow()
+	if t > limit {
+		return 0, false
+	}
+	if t < c.last {
+		c.wraps++
+	}
+	c.last = t
+	return t<<10 | c.seq&1023, true
 }
